@@ -637,6 +637,7 @@ typedef struct {
 /* Lexer */
 Token *tokenize(const char *source, int *token_count);
 void free_tokens(Token *tokens, int count);
+char *string_literal_value(const char *literal);
 const char *token_type_name(TokenType type);
 
 /* Parser */
